@@ -374,6 +374,9 @@ class Monitor:
         self.depth = 0
         self.log = log
         self.multi = 0
+        self.site_suffix = {}    # class name -> suffix that makes the site more specific (e.g. "+initial_bounds")
+        self.known = set()       # (kind, site) of listed findings
+        self.known_hit = None
 
     def decide(self):
         if self.p >= 1.0:
@@ -383,8 +386,14 @@ class Monitor:
         return self.rng.random() < self.p
 
     def _fail(self, kind, obj, detail):
+        site = type(obj).__name__ + self.site_suffix.get(type(obj).__name__, "")
+        if (kind, site) in self.known:
+            # a listed finding must not end the session (it would mask whatever else happens in it)
+            if self.known_hit is None:
+                self.known_hit = Violation(kind, site, detail)
+            return
         if self.violation is None:
-            self.violation = Violation(kind, type(obj).__name__, detail)
+            self.violation = Violation(kind, site, detail)
 
     def observe(self, obj):
         self.observations += 1
